@@ -99,6 +99,7 @@ type loopInfo struct {
 
 type Enc struct {
 	curClause *SExpr
+	privMemo map[*ssa.Alloc]bool
 	w        *World
 	s        *Script
 	obls     []*Obligation
@@ -1421,10 +1422,59 @@ func (e *Enc) havocLoop(fr *Frame, li *loopInfo, st *State) {
 		}
 		li.hdrAlloc = entryAlloc
 	}()
+	priv := e.privateCells(fr, li)
+	privIn := func(k string) string {
+		var ds []string
+		for _, a := range priv {
+			t := derefType(a.Type())
+			var lvs []leaf
+			e.memLeaves(t, "", &lvs)
+			has := false
+			for _, lf := range lvs {
+				if lf.suffix == k {
+					has = true
+					break
+				}
+			}
+			if !has {
+				continue
+			}
+			addr := fr.vals[a].term()
+			ds = append(ds, fmt.Sprintf("(and (<= %s a!c) (< a!c (+ %s %d)))", addr, addr, sizeOf(t)))
+			if len(ds) >= 8 {
+				break
+			}
+		}
+		if len(ds) == 0 {
+			return ""
+		}
+		return or(ds...)
+	}
 	for _, k := range ks {
 		w := ws[k]
 		old := e.comp(st, k, w.sort)
 		nw := e.s.Fresh("h."+k, w.sort)
+		pin := privIn(k)
+		if w.whole && pin != "" {
+			e.s.AddFact(nw, fmt.Sprintf("(forall ((a!c Int)) (! (=> %s (= (select %s a!c) (select %s a!c))) :pattern ((select %s a!c))))",
+				pin, nw, old, nw))
+		}
+		if !w.whole && pin != "" {
+			var outs []string
+			for _, r := range w.ranges {
+				if r[0] == "fresh" {
+					outs = append(outs, fmt.Sprintf("(< a!c %s)", entryAlloc))
+				} else if r[0] == "fresh0" {
+					outs = append(outs, fmt.Sprintf("(< a!c %s)", e.top.entry.alloc))
+				} else {
+					outs = append(outs, fmt.Sprintf("(not (and (<= %s a!c) (< a!c (+ %s %s))))", r[0], r[0], r[1]))
+				}
+			}
+			e.s.AddFact(nw, fmt.Sprintf("(forall ((a!c Int)) (! (=> (or %s %s) (= (select %s a!c) (select %s a!c))) :pattern ((select %s a!c))))",
+				and(outs...), pin, nw, old, nw))
+			st.heap[k] = nw
+			continue
+		}
 		if !w.whole {
 			var outs []string
 			for _, r := range w.ranges {
@@ -1447,6 +1497,97 @@ func (e *Enc) havocLoop(fr *Frame, li *loopInfo, st *State) {
 		e.assume(st, fmt.Sprintf("(<= %s %s)", st.alloc, na))
 		st.alloc = na
 	}
+}
+
+
+// ---------- private local cells ----------
+// A local variable cell whose address never leaves the function as a value (it is only used
+// for field/index addressing, loads and as the target of stores) cannot be aliased by any
+// other pointer or slice (Go memory safety). Loop havoc therefore leaves such a cell
+// unchanged unless the loop body stores to it directly.
+
+func derivedOnly(v ssa.Value, seen map[ssa.Value]bool) bool {
+	if seen[v] {
+		return true
+	}
+	seen[v] = true
+	refs := v.Referrers()
+	if refs == nil {
+		return false
+	}
+	for _, r := range *refs {
+		switch x := r.(type) {
+		case *ssa.FieldAddr:
+			if x.X != v || !derivedOnly(x, seen) {
+				return false
+			}
+		case *ssa.IndexAddr:
+			if x.X != v || !derivedOnly(x, seen) {
+				return false
+			}
+		case *ssa.UnOp:
+			if x.Op != token.MUL {
+				return false
+			}
+		case *ssa.Store:
+			if x.Val == v {
+				return false
+			}
+		case *ssa.DebugRef:
+		default:
+			return false
+		}
+	}
+	return true
+}
+
+func (e *Enc) isPrivateAlloc(a *ssa.Alloc) bool {
+	if e.privMemo == nil {
+		e.privMemo = map[*ssa.Alloc]bool{}
+	}
+	if v, ok := e.privMemo[a]; ok {
+		return v
+	}
+	v := derivedOnly(a, map[ssa.Value]bool{})
+	e.privMemo[a] = v
+	return v
+}
+
+
+// privateCells returns address ranges (addr, size) of private cells allocated before the loop
+// and not stored to inside it, restricted to cells that have a leaf in component comp.
+func (e *Enc) privateCells(fr *Frame, li *loopInfo) []*ssa.Alloc {
+	written := map[*ssa.Alloc]bool{}
+	inLoop := map[*ssa.Alloc]bool{}
+	for b := range li.body {
+		for _, in := range b.Instrs {
+			switch x := in.(type) {
+			case *ssa.Store:
+				if a := rootAlloc(x.Addr); a != nil {
+					written[a] = true
+				}
+			case *ssa.Alloc:
+				inLoop[x] = true
+			}
+		}
+	}
+	var out []*ssa.Alloc
+	for _, b := range fr.fn.Blocks {
+		for _, in := range b.Instrs {
+			a, ok := in.(*ssa.Alloc)
+			if !ok || written[a] || inLoop[a] {
+				continue
+			}
+			if _, has := fr.vals[a]; !has {
+				continue
+			}
+			if !e.isPrivateAlloc(a) {
+				continue
+			}
+			out = append(out, a)
+		}
+	}
+	return out
 }
 
 func (e *Enc) havocAll(st *State) {
